@@ -38,6 +38,8 @@ func genWireCase(t *rapid.T) WireCase {
 	c.W.Pool = rapid.Bool().Draw(t, "pool")
 	c.W.Compress = rapid.Bool().Draw(t, "compress")
 	c.R.Compress = c.W.Compress
+	c.W.HSTimeout = rapid.IntRange(0, 3).Draw(t, "w_hs_timeout") == 0
+	c.R.HSTimeout = rapid.IntRange(0, 3).Draw(t, "r_hs_timeout") == 0
 	if c.R.Server {
 		c.R.HijackR = rapid.SampledFrom([]int{0, 0, 16, 200, 256, 257, 1024}).Draw(t, "hijack_r")
 	}
